@@ -16,6 +16,10 @@ pub struct TapeSpec {
     /// the generator fails for every draw that would read byte `fail_at` or beyond
     #[serde(default)]
     pub fail_at: Option<usize>,
+    /// degenerate generator: Some(0) = every byte is the first byte of the stream (a constant generator);
+    /// Some(n) = the first n bytes of the stream repeated forever (period n)
+    #[serde(default)]
+    pub period: Option<usize>,
 }
 /// panic message prefix of a failing tape's infallible draw (recognised by the API monitor: an RNG failure, not a
 /// panic of the library)
@@ -54,6 +58,8 @@ pub struct Tape {
     label: String,
     main: Stream,
     alt: Option<(String, Stream, usize)>,
+    /// degenerate generator (see TapeSpec::period)
+    pub period: Option<usize>,
     /// fault injection: draws reaching this byte position fail (try_fill_bytes -> Err, fill_bytes -> panic, as OsRng)
     pub fail_at: Option<usize>,
     /// absolute position (bytes drawn since the start of the stream)
@@ -64,7 +70,7 @@ pub struct Tape {
 
 impl Tape {
     pub fn new(label: &str) -> Self {
-        Tape { label: label.to_string(), main: Stream::new(label), alt: None, fail_at: None, pos: 0, log: vec![] }
+        Tape { label: label.to_string(), main: Stream::new(label), alt: None, period: None, fail_at: None, pos: 0, log: vec![] }
     }
     /// tape for `label` derived from the global seed (VERIF_SEED)
     pub fn seeded(seed: u64, label: &str) -> Self {
@@ -82,7 +88,7 @@ impl Tape {
         t
     }
     pub fn spec(&self) -> TapeSpec {
-        TapeSpec { label: self.label.clone(), pos: self.pos, fork: self.alt.as_ref().map(|(l, _, a)| (l.clone(), *a)), fail_at: self.fail_at }
+        TapeSpec { label: self.label.clone(), pos: self.pos, fork: self.alt.as_ref().map(|(l, _, a)| (l.clone(), *a)), fail_at: self.fail_at, period: self.period }
     }
     pub fn from_spec(s: &TapeSpec) -> Self {
         let mut t = match &s.fork {
@@ -91,6 +97,13 @@ impl Tape {
         };
         t.pos = s.pos;
         t.fail_at = s.fail_at;
+        t.period = s.period;
+        t
+    }
+    /// a degenerate generator: constant (period 0 -> every byte equals byte 0 of the stream) or periodic
+    pub fn degenerate(label: &str, period: usize) -> Self {
+        let mut t = Tape::new(label);
+        t.period = Some(period);
         t
     }
     pub fn label(&self) -> &str {
@@ -132,7 +145,11 @@ impl RngCore for Tape {
         }
         let start = self.pos;
         for d in dest.iter_mut() {
-            let i = self.pos;
+            let i = match self.period {
+                Some(0) => 0,
+                Some(n) => self.pos % n,
+                None => self.pos,
+            };
             *d = match &mut self.alt {
                 Some((_, s, at)) if i >= *at => s.byte(i),
                 _ => self.main.byte(i),
